@@ -272,7 +272,8 @@ def _check_chain(env, tag, rel, scope, oracle, chain, sfx="", slice_kw=None, zer
     sliced = [n for blk in chain for n in blk if n in byname]
     rest = [v for v in scope if v.name not in sliced]
     names_before = _dim_names(env, rel)
-    for vals in itertools.product(*[list(byname[n].domain) for n in sliced]):
+    all_vals = list(itertools.product(*[list(byname[n].domain) for n in sliced]))
+    for vi, vals in enumerate(all_vals):
         p = dict(zip(sliced, vals))
         cur = rel
         failed = None
@@ -282,7 +283,7 @@ def _check_chain(env, tag, rel, scope, oracle, chain, sfx="", slice_kw=None, zer
         for blk in calls:
             step = {n: (p[n] if n in byname else _FOREIGN[n]) for n in blk}
             step_before = _items(step)
-            src, src_names = cur, _dim_names(env, cur)
+            src, src_names = cur, (names_before if cur is rel else _dim_names(env, cur))
             nxt = env.call(cur.slice, step, **(slice_kw or {}))
             _prove(env, flab + ".partial-assignment-unchanged" + sfx, _unchanged(step_before, step),
                    detail=lambda: dict(chain=chain, given=step_before, now=_items(step)))
@@ -326,6 +327,8 @@ def _check_chain(env, tag, rel, scope, oracle, chain, sfx="", slice_kw=None, zer
             now = _dim_names(env, src)
             _prove(env, flab + ".sliced-relation-keeps-its-dimensions" + sfx, now == src_names,
                    detail=lambda: dict(chain=chain, values=p, step=step, before=src_names, now=now))
+        if 0 < vi < len(all_vals) - 1:
+            continue     # (the two checks below: for the first and the last value of the sliced variables)
         c0 = next(iter(fx.assignments(rest)))
         full0 = dict(p)
         full0.update(c0)
